@@ -329,11 +329,11 @@ func (e *enc) op(op readerOp) rec.V {
 // generation
 
 var (
-	rdObjects = []string{"doc:1", "doc:2", "doc:10", "folder:1", "group:1", "group:2"}
+	rdObjects = []string{"doc:1", "doc:2", "doc:10", "doc:!9", "doc:~z", "folder:1", "group:1", "group:2"}
 	rdRels    = []string{"viewer", "editor", "parent", "member"}
-	rdUsers   = []string{"user:a", "user:b", "user:*", "group:1#member", "group:2#member", "group:1", "folder:1", "doc:1#viewer", "group:*"}
+	rdUsers   = []string{"user:a", "user:b", "user:*", "user:!bob", "user:(y", "user:~z", "group:1#member", "group:2#member", "group:1", "folder:1", "doc:1#viewer", "group:*"}
 	rdConds   = []string{"", "", "c1", "c2"}
-	rdIDs     = map[string][]string{"doc": {"1", "2", "10", "7"}, "folder": {"1", "2"}, "group": {"1", "2"}}
+	rdIDs     = map[string][]string{"doc": {"1", "2", "10", "7", "!9", "~z"}, "folder": {"1", "2"}, "group": {"1", "2"}}
 )
 
 func genTupleKey(r *rec.Rand) *openfgav1.TupleKey {
